@@ -115,6 +115,7 @@ func run(pr *rules.PropertyRules, tier, only string, writeEv bool) (code int) {
 			}
 			rep.Unit("config %s: %d module packages, %d packages in closure", name, len(w.Pkgs), len(w.All))
 		}
+		rules.InstallRoles(w, rep)
 		env := &rules.Env{W: w, R: rep, Tier: tier, Config: name, HZ: hzLoader}
 		for _, fn := range pr.Rules {
 			fn(env)
